@@ -203,6 +203,41 @@ def rule_guards(ck):
         (o.ok() if ok else o.fail('NaN statistics of empty synthetic catalogs are not removed from the distribution handed to get_quantiles'))
 
 
+def rule_every_catalog(ck):
+    """spatial / pseudo-likelihood / number tests: every synthetic catalog contributes one entry (an empty catalog has a defined
+    pseudo-likelihood -N and a NaN spatial statistic that is filtered later); only the magnitude-type tests skip empty catalogs."""
+    P = ck.prog
+    ck.clause('D3')
+    for name in ('spatial_test', 'pseudolikelihood_test', 'number_test'):
+        f = P.func(CE + name)
+        lps = [n for n in all_nodes(f) if isinstance(n, ast.For) and 'forecast' in u(n.iter)]
+        o = ck.ob('C10-D3.every', f, lps[0].iter if lps else 'loop over the forecast', lps[0] if lps else f.node)
+        if len(lps) != 1:
+            o.fail('%s does not loop over the forecast exactly once' % name)
+            continue
+        lp = lps[0]
+        apps = [x for x in ast.walk(lp) if isinstance(x, ast.Call) and isinstance(x.func, ast.Attribute) and x.func.attr == 'append']
+        skips = [x for x in ast.walk(lp) if isinstance(x, (ast.Continue, ast.Break))]
+        if len(apps) != 1:
+            o.fail('%d appends in the loop' % len(apps))
+        elif guards_of(apps[0], lp):
+            o.fail('the statistic of a synthetic catalog is appended only under `%s`' % u(guards_of(apps[0], lp)[0][0]))
+        elif skips:
+            o.fail('some synthetic catalogs are skipped (%s at L%d): in this test every catalog - an empty one included - contributes to the '
+                   'test distribution' % (type(skips[0]).__name__.lower(), skips[0].lineno))
+        else:
+            o.ok('one entry per synthetic catalog')
+
+
+def rule_forecast_state(ck):
+    """the tests consume forecast.expected_rates and iterate the forecast: they rely on the typestate of CatalogForecast (shared C13)."""
+    from . import c13
+    ck.clause('shared C13-D2..D7 (forecast iteration and expected rates)')
+    c13.rule_next(ck)
+    c13.rule_getters(ck)
+    c13.rule_complete_passes(ck)
+
+
 def rule_first_difference(ck):
     """numpy.diff(x)[0] needs at least two elements: a region with a single (open-ended) magnitude bin is a legal
     space-magnitude region."""
@@ -418,4 +453,4 @@ def rule_classes(ck):
         (o.ok() if ok else o.fail('%s does not make sure the forecast\'s expected rates exist' % name))
 
 
-RULES = [rule_status, rule_undersampling, rule_guards, rule_first_difference, rule_formulas, rule_classes]
+RULES = [rule_status, rule_undersampling, rule_guards, rule_every_catalog, rule_first_difference, rule_formulas, rule_classes, rule_forecast_state]
